@@ -63,18 +63,22 @@ import (
 
 	"verif/internal/harness"
 
+	"github.com/mgtv-tech/redis-GunYu/config"
 	"github.com/mgtv-tech/redis-GunYu/pkg/cluster"
 	"github.com/mgtv-tech/redis-GunYu/syncer"
 )
 
 const (
 	scPlain      = "plain"
-	scCut        = "cut"        // cut, stop the follower, inspect, start a new follower on the same cache
-	scCutRetry   = "cutretry"   // cut and let the follower's own retry loop recover
-	scSwitch2    = "switch2"    // leader restarts under another id between handshake and meta sync
-	scSwitchLate = "switchlate" // leader restarts under another id once the follower has caught up
-	scSwitchRdb  = "switchrdb"  // leader restarts under another id while the follower downloads its snapshot
-	scBounce     = "bounce"     // leader stopped for exactly the first meta-sync RPC
+	scCut        = "cut"          // cut, stop the follower, inspect, start a new follower on the same cache
+	scCutRetry   = "cutretry"     // cut and let the follower's own retry loop recover
+	scSwitch2    = "switch2"      // leader restarts under another id between handshake and meta sync
+	scSwitchLate = "switchlate"   // leader restarts under another id once the follower has caught up
+	scFailover2  = "failover2"    // the source fails over (+CONTINUE <new id>) between the follower's handshake and its data request
+	scFailoverX1 = "failoverx1"   // ... between the snapshot transfer and the follower's next request
+	scFailoverLt = "failoverlate" // ... once the follower has caught up
+	scSwitchRdb  = "switchrdb"    // leader restarts under another id while the follower downloads its snapshot
+	scBounce     = "bounce"       // leader stopped for exactly the first meta-sync RPC
 )
 
 // ReplicaFollower.preSync drops the cache when it is more than this far behind the leader
@@ -102,6 +106,7 @@ type caseSpec struct {
 	ZH        hist     `json:"switch_history"`
 	IDs       []string `json:"ids"`
 	Bursts    []int64  `json:"live_bursts"`
+	Crc       bool     `json:"verify_crc"` // run in the phase with channel.verifyCrc = true (process-wide setting)
 	weight    int
 }
 
@@ -153,6 +158,9 @@ func buildCases(r *harness.Run) []*caseSpec {
 			}
 		}
 		key += fmt.Sprintf("/v%d", c.Variant)
+		if c.Crc {
+			key += "/crc"
+		}
 		c.Key = key
 		rng := r.Rand("case|" + key)
 		j := int64(rng.Intn(400))
@@ -177,6 +185,9 @@ func buildCases(r *harness.Run) []*caseSpec {
 				c.ZH = hist{Name: "Z-high", ID: idZ, RdbLeft: 90000 + j, RdbSize: 8000, LogLeft: 90000 + j, LogRight: 95000 + j}
 			}
 		}
+		if c.Scn == scFailover2 || c.Scn == scFailoverX1 || c.Scn == scFailoverLt {
+			c.ZH = hist{Name: "Z-continues", ID: idZ, Continues: true}
+		}
 		sizes := []int64{4096, 10000, 1 << 20}
 		c.LogSizeL, c.LogSizeF = sizes[rng.Intn(3)], sizes[rng.Intn(3)]
 		if c.L == "G" {
@@ -186,7 +197,13 @@ func buildCases(r *harness.Run) []*caseSpec {
 			c.LogSizeL, c.LogSizeF = 4<<20, 3<<20
 		}
 		burst := []int64{1, 17, 700, 4095, 4096, 4097, 9000}
-		for i := 0; i < 3; i++ {
+		nb := 3
+		if c.Crc && !strings.HasPrefix(c.L, "B") {
+			// the leader's log must rotate, several times, while the follower is tailing it
+			c.LogSizeL = 4096
+			burst, nb = []int64{700, 3000, 4097, 6000, 9000, 9000}, 5
+		}
+		for i := 0; i < nb; i++ {
 			c.Bursts = append(c.Bursts, burst[rng.Intn(len(burst))])
 		}
 		// slow cases first
@@ -195,7 +212,7 @@ func buildCases(r *harness.Run) []*caseSpec {
 			c.weight = 5
 		case c.L == "E" || c.L == "R" || c.L == "R0":
 			c.weight = 3
-		case c.Scn == scSwitchRdb || c.Scn == scCutRetry || c.Scn == scSwitch2 || c.Scn == scSwitchLate || c.Scn == scBounce:
+		case c.Scn == scFailover2 || c.Scn == scFailoverX1 || c.Scn == scFailoverLt || c.Scn == scSwitchRdb || c.Scn == scCutRetry || c.Scn == scSwitch2 || c.Scn == scSwitchLate || c.Scn == scBounce:
 			c.weight = 2
 		case c.F == "O" || c.L == "OL":
 			c.weight = 4
@@ -296,8 +313,44 @@ func buildCases(r *harness.Run) []*caseSpec {
 					}
 				}
 			}
+			// D. the source fails over and continues under a new id ([new, old] reported by the input)
+			for _, f := range []string{"E", "P", "Q"} {
+				add(caseSpec{L: "Q", F: f, BL: cb[0], BF: cb[1], Proc: "same", Scn: scFailover2, Variant: v})
+			}
+			for _, f := range []string{"P", "C"} {
+				add(caseSpec{L: "CS", F: f, BL: cb[0], BF: cb[1], Proc: "same", Scn: scFailoverX1, Variant: v})
+			}
+			for _, f := range []string{"E", "P"} {
+				add(caseSpec{L: "Q", F: f, BL: cb[0], BF: cb[1], Proc: "same", Scn: scFailoverLt, Variant: v})
+			}
 			add(caseSpec{L: "Q", F: "P", BL: cb[0], BF: cb[1], Proc: "same", Scn: scBounce, Variant: v})
 			add(caseSpec{L: "CS", F: "P", BL: cb[0], BF: cb[1], Proc: "same", Scn: scBounce, Variant: v})
+		}
+	}
+	// E. the same kinds of session with channel.verifyCrc on (disk leader, log rotating under the
+	// follower's live tail): run as a second phase, the setting is process-wide
+	for v := 0; v < r.N(1, 3); v++ {
+		for _, bf := range []string{backendDisk, backendMem} {
+			for _, l := range []string{"P", "Q", "C", "CS", "G"} {
+				for _, f := range []string{"E", "P", "Q", "C"} {
+					add(caseSpec{L: l, F: f, BL: backendDisk, BF: bf, Proc: "same", Scn: scPlain, Variant: v, Crc: true})
+				}
+			}
+			for _, f := range []string{"E", "P"} {
+				add(caseSpec{L: "E", F: f, BL: backendDisk, BF: bf, Proc: "same", Scn: scPlain, Variant: v, Crc: true})
+			}
+			for _, p := range [][2]string{{"Q", "P"}, {"CS", "P"}} {
+				for _, k := range []int{1, 3} {
+					add(caseSpec{L: p[0], F: p[1], BL: backendDisk, BF: bf, Proc: "same", Scn: scCut, CutK: k, Variant: v, Crc: true})
+				}
+				add(caseSpec{L: p[0], F: p[1], BL: backendDisk, BF: bf, Proc: "same", Scn: scCutRetry, CutK: 2, Variant: v, Crc: true})
+			}
+			add(caseSpec{L: "Q", F: "P", BL: backendDisk, BF: bf, Proc: "same", Scn: scSwitch2, SwitchLow: false, Variant: v, Crc: true})
+			add(caseSpec{L: "Q", F: "P", BL: backendDisk, BF: bf, Proc: "same", Scn: scSwitchLate, SwitchLow: true, Variant: v, Crc: true})
+			add(caseSpec{L: "CS", F: "P", BL: backendDisk, BF: bf, Proc: "same", Scn: scSwitchRdb, SwitchLow: false, Variant: v, Crc: true})
+			add(caseSpec{L: "Q", F: "P", BL: backendDisk, BF: bf, Proc: "same", Scn: scFailover2, Variant: v, Crc: true})
+			add(caseSpec{L: "Q", F: "E", BL: backendDisk, BF: bf, Proc: "same", Scn: scFailoverLt, Variant: v, Crc: true})
+			add(caseSpec{L: "S", F: "BB", BL: backendDisk, BF: bf, Proc: "same", Scn: scPlain, Variant: v, Crc: true})
 		}
 	}
 	sort.SliceStable(cases, func(i, j int) bool { return cases[i].weight > cases[j].weight })
@@ -328,15 +381,30 @@ func main() {
 	fmt.Printf("C16: %d cases (tier %s, seed %d)\n", len(sel), r.Tier, r.Seed)
 	var mu sync.Mutex
 	doneN := 0
-	harness.Parallel(len(sel), 48, func(i int) {
-		runCase(r, sel[i], filepath.Join(tmp, fmt.Sprintf("c%04d", i)))
-		mu.Lock()
-		doneN++
-		if doneN%100 == 0 {
-			fmt.Printf("C16: %d/%d cases done\n", doneN, len(sel))
+	// channel.verifyCrc is one process-wide setting read whenever a disk cache opens a reader: the
+	// cases that want it on run as a second phase, after every case of the first has been torn down
+	for phase, crc := range []bool{false, true} {
+		var part []*caseSpec
+		for _, c := range sel {
+			if c.Crc == crc {
+				part = append(part, c)
+			}
 		}
-		mu.Unlock()
-	})
+		if len(part) == 0 {
+			continue
+		}
+		config.GetSyncerConfig().Channel.VerifyCrc = crc
+		r.Count(fmt.Sprintf("cases_verify_crc_%v", crc), int64(len(part)))
+		harness.Parallel(len(part), 48, func(i int) {
+			runCase(r, part[i], filepath.Join(tmp, fmt.Sprintf("p%dc%04d", phase, i)))
+			mu.Lock()
+			doneN++
+			if doneN%100 == 0 {
+				fmt.Printf("C16: %d/%d cases done\n", doneN, len(sel))
+			}
+			mu.Unlock()
+		})
+	}
 	code := r.Finish()
 	os.RemoveAll(tmp)
 	os.Exit(code)
@@ -541,6 +609,7 @@ const (
 	maxHandshakes  = 4
 	livelockRounds = 6
 	refusedRounds  = 3
+	quietTime      = 10 * time.Second
 )
 
 // waitEvent blocks until a logical event: the follower caught up, Run returned, the armed cut
@@ -550,6 +619,7 @@ func (cr *caseRun) waitEvent(h *follHandle, wantCut bool) string {
 	if h.ret {
 		return "returned"
 	}
+	quietSince, quietSig := time.Now(), ""
 	hs0, xf0 := cr.ln.counts()
 	rpc0 := hs0 + xf0 // rounds are counted from here on: the leader is not being changed while we wait
 	for i := 0; ; i++ {
@@ -592,6 +662,18 @@ func (cr *caseRun) waitEvent(h *follHandle, wantCut bool) string {
 		} else {
 			deliveredSince, deliveredRPCs = time.Now(), hs+xf
 		}
+		// nothing at all moves (no RPC, no message, no change of what the follower declares) for
+		// far longer than any of the follower's own sleeps (3 s): a shorter watchdog — inconclusive
+		// like the long one, but what the follower holds is still judged
+		if i%50 == 0 {
+			hs, xf := cr.ln.counts()
+			sig := fmt.Sprintf("%d|%d|%d|%v", hs, xf, cr.ln.msgsTotal.Load(), stateOf(cr.fch))
+			if sig != quietSig {
+				quietSig, quietSince = sig, time.Now()
+			} else if time.Since(quietSince) > quietTime {
+				return "quiet"
+			}
+		}
 		if time.Since(cr.t0) > caseWatchdog {
 			return "watchdog"
 		}
@@ -601,6 +683,31 @@ func (cr *caseRun) waitEvent(h *follHandle, wantCut bool) string {
 			time.Sleep(2 * time.Millisecond)
 		}
 	}
+}
+
+// waitSteps: like waitEvent, but bounded by a number of polling steps instead of waiting for an event.
+func (cr *caseRun) waitSteps(h *follHandle, steps int) string {
+	if h.ret {
+		return "returned"
+	}
+	for i := 0; i < steps; i++ {
+		select {
+		case h.err = <-h.done:
+			h.ret = true
+			return "returned"
+		default:
+		}
+		if cr.converged() {
+			return "converged"
+		}
+		if fid := cr.fch.RunId(); fid != "" {
+			if _, fr := cr.fch.GetOffsetRange(fid); fr >= 0 && fr == cr.lf.curRight() {
+				return "followed" // everything the leader holds, under the label the stream was opened with
+			}
+		}
+		time.Sleep(2 * time.Millisecond)
+	}
+	return "steps"
 }
 
 func (cr *caseRun) check(where string, quiescent bool) chanState {
@@ -616,6 +723,18 @@ func (cr *caseRun) check(where string, quiescent bool) chanState {
 	}
 	cr.mu.Unlock()
 	return s
+}
+
+// failoverLeader: the source fails over (+CONTINUE <new id>); grow > 0 lets the promoted master's
+// stream advance by that many bytes before anything else happens (the leader's newest offset then
+// lies beyond the switch offset).
+func (cr *caseRun) failoverLeader(grow int64) error {
+	oldID, at, err := cr.lf.failover(cr.c.ZH.ID)
+	if err != nil {
+		return err
+	}
+	cr.wd.continuation(cr.c.ZH.ID, oldID, at)
+	return cr.lf.append(grow)
 }
 
 func (cr *caseRun) switchLeader() error {
@@ -722,6 +841,20 @@ func runCase(r *harness.Run, c *caseSpec, dir string) {
 				once.Do(func() {
 					hookErr = cr.switchLeader()
 					cr.note("leader restarted under id %.8s before meta sync", c.ZH.ID)
+					switched.Store(true)
+				})
+			}
+		}
+	case scFailover2, scFailoverX1:
+		want := 0
+		if c.Scn == scFailoverX1 {
+			want = 1
+		}
+		ln.beforeRPC = func(rec rpcRec) {
+			if rec.Transfer == want {
+				once.Do(func() {
+					hookErr = cr.failoverLeader(2000)
+					cr.note("source failed over: leader continues under id %.8s (reports [new, old]) before transfer RPC %d is handled", c.ZH.ID, want)
 					switched.Store(true)
 				})
 			}
@@ -841,7 +974,7 @@ func runCase(r *harness.Run, c *caseSpec, dir string) {
 	} else if !h.ret {
 		wantCut := c.Scn == scCut || c.Scn == scCutRetry
 		midChecked := false
-		if c.Scn == scSwitch2 || c.Scn == scSwitchRdb {
+		if c.Scn == scSwitch2 || c.Scn == scSwitchRdb || c.Scn == scFailover2 {
 			// the leader restarts inside the handler of the first meta-sync RPC (or in the middle of
 			// the snapshot transfer); live appends go to the new history
 			waitUntil(caseWatchdog, func() bool {
@@ -851,6 +984,21 @@ func runCase(r *harness.Run, c *caseSpec, dir string) {
 				for _, rp := range ln.snapshotRPCs() {
 					if rp.Transfer == 0 && (rp.Done || (len(rp.Msgs) > 0 && rp.Msgs[0].Aof)) {
 						return true // no snapshot transfer to interrupt
+					}
+				}
+				return false
+			})
+		}
+		if c.Scn == scFailoverX1 {
+			// live appends start once the fail-over has happened, or it is clear that no snapshot
+			// transfer (hence no second request inside the session) takes place
+			waitUntil(caseWatchdog, func() bool {
+				if switched.Load() || len(h.done) > 0 {
+					return true
+				}
+				for _, rp := range ln.snapshotRPCs() {
+					if rp.Transfer == 0 && len(rp.Msgs) > 0 && (rp.Msgs[0].Aof || rp.Msgs[0].Code != "META") {
+						return true
 					}
 				}
 				return false
@@ -884,6 +1032,33 @@ func runCase(r *harness.Run, c *caseSpec, dir string) {
 				midChecked = true
 				cr.check("while-running", false)
 			}
+			if bi == 0 && c.Scn == scFailoverLt {
+				if err := cr.failoverLeader(0); err != nil {
+					harnessFail("leader fail-over: %v", err)
+					return
+				}
+				cr.note("source failed over after the follower caught up: leader continues under id %.8s", c.ZH.ID)
+				// the leader's new writer goes on appending; the follower gets a bounded number of
+				// steps after each burst, then it is stopped and what it holds is judged (whether its
+				// open stream carries on, fails and is re-opened, or stalls is not this property's)
+				msgs0, rpcs0 := ln.msgsTotal.Load(), len(ln.snapshotRPCs())
+				for _, b2 := range bursts[1:] {
+					if err := cr.lf.append(b2); err != nil {
+						harnessFail("leader live append: %v", err)
+						return
+					}
+					if ev = cr.waitSteps(h, 1500); ev == "returned" || ev == "steps" {
+						break
+					}
+				}
+				if ev == "steps" && ln.msgsTotal.Load() == msgs0 && len(ln.snapshotRPCs()) == rpcs0 {
+					// observation (liveness, outside C16): the stream opened before the fail-over neither
+					// delivered a message nor ended, and the follower opened no new one
+					ev = "stalled-after-failover"
+					r.Count("follower_stream_stalled_after_leader_failover", 1)
+				}
+				break
+			}
 			if bi == 0 && c.Scn == scSwitchLate {
 				if err := cr.switchLeader(); err != nil {
 					harnessFail("leader switch: %v", err)
@@ -902,15 +1077,16 @@ func runCase(r *harness.Run, c *caseSpec, dir string) {
 		harnessFail("leader switch: %v", hookErr)
 		return
 	}
-	if ev == "watchdog" {
+	if ev == "watchdog" || ev == "quiet" {
 		cr.mu.Lock()
 		tr := fmt.Sprint(cr.trace)
 		cr.mu.Unlock()
 		if b, err := json.Marshal(cr.witness(nil)); err == nil {
 			fmt.Printf("WATCHDOG %s\n", b)
 		}
-		harnessFail("watchdog: follower neither caught up nor returned (trace %s)", tr)
-		return
+		// inconclusive as to progress; what the follower holds is judged below all the same
+		harnessFail("watchdog (%s): follower neither caught up nor returned although the leader holds id %.8s up to %d (trace %s)",
+			ev, cr.lf.curID(), cr.lf.curRight(), tr)
 	}
 	if !cr.stopFollower(h) {
 		return
@@ -939,6 +1115,14 @@ func runCase(r *harness.Run, c *caseSpec, dir string) {
 		outcome = "takeover"
 	case ev == "returned":
 		outcome = "returned-other"
+	case ev == "stalled-after-failover":
+		outcome = "stream-stalled-after-leader-failover"
+	case ev == "followed":
+		outcome = "followed-under-old-label"
+	case ev == "steps":
+		outcome = "behind-after-leader-failover"
+	case ev == "watchdog" || ev == "quiet":
+		outcome = "stalled"
 	case ev == "refused":
 		outcome = "leader-has-nothing"
 	case ev == "livelock":
